@@ -471,6 +471,8 @@ def judge(ctx, prop, leaves_with_kind, skel, opts, name):
                     continue
                 mons.append(mon)
                 where.append((xi, sp))
+                mons.append(cc.to_monitor(sp, evs, "C02"))      # the same encoding judged for wire well-formedness
+                where.append((xi, sp))
         rfails, rinfo = cc.validate(ctx, mons, name + "_rt", chunks=max(1, min(6, len(mons) // 400)))
         ctx.add_validation(rinfo, len(mons))
         for (xi, sp), mon in zip(where, mons):
@@ -489,7 +491,7 @@ def judge(ctx, prop, leaves_with_kind, skel, opts, name):
                                          trace=[cc.slim(e) for e in mons[f["exec"]]], leaf=jobs[xi][1], xml=render_xml(b.S)))
         ctx.tick(name + ":validate_roundtrips")
         ctx.extra.setdefault("schemas", []).extend(summaries)
-        ctx.extra["messages_round_tripped"] = ctx.extra.get("messages_round_tripped", 0) + len(mons)
+        ctx.extra["messages_round_tripped"] = ctx.extra.get("messages_round_tripped", 0) + len(mons) // 2
         return summaries, outs, mexecs
     finally:
         cc.NS.clear()
